@@ -55,6 +55,8 @@ func init() {
 		c17Ops = append(c17Ops, c17Op{1, 0, 0, ref})
 	}
 	c17Ops = append(c17Ops, c17Op{kind: 2})
+	// characters above U+FFFF can never be covered; in particular not through their low 16 bits
+	c17Probes = append(c17Probes, 0x10000, 0x10061, 0x100FF, 0x10100, 0x12000, 0x1F600, 0x1FFFE, 0x2FFFE, 0x10FFFF)
 	seen := map[rune]bool{}
 	for _, e := range c17Endpoints {
 		for _, d := range []rune{-1, 0, 1} {
@@ -179,6 +181,25 @@ func c17CheckHistory(c *fw.Ctx, h []int) string {
 			}
 			key.WriteString(got)
 			key.WriteByte(',')
+		}
+		// and once more in descending order and in a far/near alternation: an answer must not
+		// depend on which character was looked up just before
+		for k := len(c17Probes) - 1; k >= -len(c17Probes); k-- {
+			var p rune
+			if k >= 0 {
+				p = c17Probes[k]
+			} else if j := -k - 1; j%2 == 0 {
+				p = c17Probes[j/2]
+			} else {
+				p = c17Probes[len(c17Probes)-1-j/2]
+			}
+			var got string
+			if pv := fw.Try(func() { got = c17Classify(m.Lookup(p)) }); pv != nil {
+				got = "panic"
+			}
+			if want := names[c17ModelLookup(ivs, p)]; got != want {
+				c.Violation("lookup-depends-on-lookup-order", "after [%s]: Lookup(%#x) = %s when the probes are looked up in another order, the latest covering registration says %s", c17HistStr(h[:step]), p, got, want)
+			}
 		}
 	}
 	c.Eval(1)
